@@ -311,7 +311,13 @@ func (e *Exec) tryMerge(pre *State, outs []Outcome, fn *ssa.Function) (res []Out
 		merged[j] = v
 	}
 	st := pre
+	npre := len(pre.facts)
 	st.Assume(Or(deltas...))
+	for _, o := range outs {
+		for _, f := range o.st.facts[npre:] {
+			st.AssumeFact(f)
+		}
+	}
 	return []Outcome{{st, merged}}
 }
 
@@ -580,12 +586,8 @@ func init() {
 		src := args[1].(*SliceV)
 		srcArr := st.arrayOf(src.Elem, comp{"", BV(8)}, src.Arr)
 		e.frameCheck(st, fr, l, pos)
-		var res []Outcome
-		for _, o := range e.appendSlice(st, fr, cur, src.Elem, func(c comp) *Term { return srcArr }, src.Off, src.Len, pos) {
-			o.st.StoreLoc(l, o.v)
-			res = append(res, Outcome{o.st, []Value{src.Len, nilIface()}})
-		}
-		return res
+		st.StoreLoc(l, e.bufAppend(st, cur, srcArr, src.Off, src.Len))
+		return one(st, src.Len, nilIface())
 	}
 	models["(*bytes.Buffer).WriteByte"] = func(e *Exec, st *State, fr *Frame, fn *ssa.Function, args []Value, pos token.Pos) []Outcome {
 		p := args[0].(*PtrV)
@@ -595,12 +597,9 @@ func init() {
 		e.assumeValid(st, l.T, cur)
 		one1 := Store(zeroTerm(ArrSort(BV(64), BV(8))), BVConst(0, 64), args[1].(*Term))
 		e.frameCheck(st, fr, l, pos)
-		var res []Outcome
-		for _, o := range e.appendSlice(st, fr, cur, bt.Elem(), func(c comp) *Term { return one1 }, BVConst(0, 64), BVConst(1, 64), pos) {
-			o.st.StoreLoc(l, o.v)
-			res = append(res, Outcome{o.st, []Value{nilIface()}})
-		}
-		return res
+		_ = bt
+		st.StoreLoc(l, e.bufAppend(st, cur, one1, BVConst(0, 64), BVConst(1, 64)))
+		return one(st, nilIface())
 	}
 	// sync.Mutex: ghost field $held
 	heldLoc := func(e *Exec, p *PtrV) Loc {
@@ -624,6 +623,22 @@ func init() {
 		st.StoreLoc(l, False)
 		return one(st)
 	}
+}
+
+// bufAppend: a bytes.Buffer is modelled as a byte sequence; every write yields a new private backing array (whether the
+// library grows in place is unobservable through the [0:len) part of slices handed out earlier by Bytes()).
+func (e *Exec) bufAppend(st *State, cur *SliceV, src, soff, n *Term) *SliceV {
+	e.note("bytes.Buffer is modelled as a byte sequence (writes never alias slices returned earlier by Bytes())")
+	zero := BVConst(0, 64)
+	c := comp{"", BV(8)}
+	old := st.arrayOf(cur.Elem, c, cur.Arr)
+	fresh := st.NewRef()
+	grown := ArrayCopy(zeroTerm(old.Sort), zero, old, cur.Off, cur.Len)
+	st.setArrayOf(cur.Elem, c, fresh, ArrayCopy(grown, cur.Len, src, soff, n))
+	newLen := BVAdd(cur.Len, n)
+	capN := Fresh("cap", BV(64))
+	st.AssumeFact(And(BVUle(newLen, capN), BVUle(capN, BVConst(maxLen, 64))))
+	return &SliceV{Arr: fresh, Off: zero, Len: newLen, Cap: capN, Elem: cur.Elem}
 }
 
 func (e *Exec) tidNamed(name string) *Term {
